@@ -18,7 +18,7 @@ def d_tlc(name, module, cfg, dom, subdir="mc", expect="ok", thorough_only=False,
 
 def d_apa(name, module, cinit, inv, expect="ok", thorough_only=False, init=None, next_=None):
     def runit(d, tier):
-        r = core.apalache(module, cinit, inv, timeout=400, init=init, next_=next_)
+        r = core.apalache(module, cinit, inv, timeout=150, init=init, next_=next_)
         if r["result"] == "timeout":
             return dict(result="inconclusive-timeout", note=r["note"])
         if expect == "violated":
